@@ -39,27 +39,24 @@ theorem rowSum_snoc (l : List (Nat × K)) (cv : Nat × K) (k : Nat) :
   | nil => rw [List.nil_append, rowSum_cons, rowSum_nil, add_zero, zero_add]
   | cons e t ih => rw [List.cons_append, rowSum_cons, rowSum_cons, ih, add_assoc]
 
-/-- a dense row read in column `j` is the sum of the stored entries of column `j+1` when no column repeats -/
-theorem rowDense_rowSum (n : Nat) (l : List (Nat × K)) (hnd : (l.map (·.1)).Nodup)
+/-- a dense row read in column `j` is the sum of the stored entries of column `j+1` (repeated columns allowed) -/
+theorem rowDense_rowSum' (n : Nat) (l : List (Nat × K))
     (hr : ∀ cv ∈ l, 1 ≤ cv.1 ∧ cv.1 ≤ n) (j : Nat) (hj : j < n) :
     vget (rowDense n l) j = Lin.rowSum l (j + 1) := by
   induction l using List.reverseRecOn with
   | nil => rw [rowSum_nil]; exact rowDense_zero n [] j (by simp)
   | append_singleton l cv ih =>
-    rw [List.map_append, List.nodup_append] at hnd
-    obtain ⟨hnd1, _, hdis⟩ := hnd
     have hr1 : ∀ cv' ∈ l, 1 ≤ cv'.1 ∧ cv'.1 ≤ n := fun cv' h => hr cv' (by simp [h])
     obtain ⟨hc1, hc2⟩ := hr cv (by simp)
-    rw [rowSum_snoc, rowDense_snoc, vget_set, ← ih hnd1 hr1]
+    rw [rowSum_snoc, rowDense_snoc, vget_set, ← ih hr1]
     by_cases h : cv.1 - 1 = j
-    · have hz : vget (rowDense n l) j = 0 := by
-        apply rowDense_zero
-        intro cv' hcv' e
-        have h1 := hr1 cv' hcv'
-        have : cv'.1 = cv.1 := by omega
-        exact hdis cv'.1 (List.mem_map.2 ⟨cv', hcv', rfl⟩) cv.1 (by simp) this
-      rw [if_pos ⟨h, by rw [rowDense_size]; omega⟩, if_pos (by omega), hz, zero_add]
+    · rw [if_pos ⟨h, by rw [rowDense_size]; omega⟩, if_pos (by omega), h]
     · rw [if_neg (fun h' => h h'.1), if_neg (by omega), add_zero]
+
+/-- the form with the (no longer needed) no-repeat hypothesis, kept for its callers -/
+theorem rowDense_rowSum (n : Nat) (l : List (Nat × K)) (hnd : (l.map (·.1)).Nodup)
+    (hr : ∀ cv ∈ l, 1 ≤ cv.1 ∧ cv.1 ≤ n) (j : Nat) (hj : j < n) :
+    vget (rowDense n l) j = Lin.rowSum l (j + 1) := rowDense_rowSum' n l hr j hj
 
 /-- **the matrix of the C01 theorems, entry by entry, is what the consumers of the sparse rows see** -/
 theorem A_entry_rowSum (p : Problem K) (hrows : RowsOK p) (i : Fin p.m) (j : Fin p.n) :
